@@ -37,14 +37,14 @@ def step (s : Option St) (line : String) : Option St × String :=
         match unhex cur, cnt.toInt? with
         | some cur, some cnt =>
           if cnt < 0 then (s, "err:args") else   -- parseScanArgs refuses a negative COUNT
-          match advPage (getPop st T) cur cnt (rev == "1") with
+          match advPage (getPop st T) cur (parseCount cnt) (rev == "1") with
           | some (ks, next) => (s, s!"keys={hexList ks} next={hexs next}")
           | none => (s, "bad-op")
         | _, _ => (s, "bad-op")
       | ["full", T, table, start, cnt, rev] =>
         match unhex table, unhex start, cnt.toInt? with
         | some table, some start, some cnt =>
-          match advFull (getPop st T) table cnt (rev == "1") 2001 start 0 with
+          match advFull (getPop st T) table (parseCount cnt) (rev == "1") 2001 start 0 with
           | some (ks, r) => (s, s!"keys={hexList ks} rounds={r}")
           | none => (s, "bad-op")
         | _, _, _ => (s, "bad-op")
@@ -52,7 +52,7 @@ def step (s : Option St) (line : String) : Option St × String :=
         match unhex raw, unhex cur, cnt.toInt? with
         | some raw, some cur, some cnt =>
           if cnt < 0 then (s, "err:args") else
-          let (it, next) := collPage (getColl st (kind, raw)) cur cnt (rev == "1")
+          let (it, next) := collPage (getColl st (kind, raw)) cur (parseCount cnt) (rev == "1")
           (s, s!"items={hexList it} next={hexs next}")
         | _, _, _ => (s, "bad-op")
       | ["fullm", T, table, start, cnt, rev, pre] =>
@@ -60,20 +60,20 @@ def step (s : Option St) (line : String) : Option St × String :=
         match unhex table, unhex start, cnt.toInt?, unhex pre with
         | some table, some start, some cnt, some pre =>
           let pat := table ++ [58] ++ pre
-          match advFull ((getPop st T).filter (fun k => pat.isPrefixOf k)) table cnt (rev == "1") 2001 start 0 with
+          match advFull ((getPop st T).filter (fun k => pat.isPrefixOf k)) table (parseCount cnt) (rev == "1") 2001 start 0 with
           | some (ks, r) => (s, s!"keys={hexList ks} rounds={r}")
           | none => (s, "bad-op")
         | _, _, _, _ => (s, "bad-op")
       | ["cfullm", kind, raw, start, cnt, rev, pre] =>
         match unhex raw, unhex start, cnt.toInt?, unhex pre with
         | some raw, some start, some cnt, some pre =>
-          let (it, r) := collFull ((getColl st (kind, raw)).filter (fun k => pre.isPrefixOf k)) cnt (rev == "1") 2001 start 0
+          let (it, r) := collFull ((getColl st (kind, raw)).filter (fun k => pre.isPrefixOf k)) (parseCount cnt) (rev == "1") 2001 start 0
           (s, s!"items={hexList it} rounds={r}")
         | _, _, _, _ => (s, "bad-op")
       | ["cfull", kind, raw, start, cnt, rev] =>
         match unhex raw, unhex start, cnt.toInt? with
         | some raw, some start, some cnt =>
-          let (it, r) := collFull (getColl st (kind, raw)) cnt (rev == "1") 2001 start 0
+          let (it, r) := collFull (getColl st (kind, raw)) (parseCount cnt) (rev == "1") 2001 start 0
           (s, s!"items={hexList it} rounds={r}")
         | _, _, _ => (s, "bad-op")
       | _ => (s, "bad-op")
